@@ -180,6 +180,48 @@ def big_scrape_scenario(ctx, backend, rnd, trace, run_id):
         t.stop()
 
 
+def multiworker_scenario(ctx, backend, rnd, trace, run_id):
+    """Four socket workers behind one port (SO_REUSEPORT spreads sources over them): a connection id
+    obtained through one socket is valid for its source IP whichever worker a later datagram reaches, and
+    all workers serve one swarm state."""
+    port = free_port()
+    t = Tracker(ctx, "udp", udp_config(port, backend, mode="off", workers=4), "multi_" + backend)
+    drv = None
+    try:
+        udp_wait_ready(("127.0.0.1", port), tracker=t)
+        trace.append({"ev": "reset", "run": run_id, "backend": backend, "max_scrape": 3, "max_resp": 5,
+                      "forbidden": [], "scenario": "multiworker", "socket_workers": 4})
+        drv = Driver(ctx, ("127.0.0.1", port), ("::1", port), trace, rnd)
+        first = {}
+        for ip, tag in (("127.0.0.2", "A"), ("::1", "D")):
+            n0 = drv.client(ip, tag + "0")
+            r = drv.send(n0, connect_req(drv.next_txid()), {"class": "connect_ok", "conn": "none", "txid": drv.txid}, True)
+            if not r or r.get("kind") != "connect":
+                raise ToolError("no connect reply from the %s tracker with 4 socket workers" % backend)
+            first[tag] = r["conn_id"]
+            # the same id from nine other source ports of the same address
+            for i in range(1, 10):
+                n = drv.client(ip, "%s%d" % (tag, i))
+                tx = drv.next_txid()
+                if i % 3 == 0:
+                    hs = [1, 2]
+                    drv.send(n, build(drv, "scrape_ok", first[tag], tx, 0, 0, rnd, hs=hs),
+                             {"class": "scrape_ok", "conn": "valid", "txid": tx, "hs": hs}, True)
+                else:
+                    drv.send(n, build(drv, "announce_ok", first[tag], tx, 1 + i % 2, 7300 + i, rnd, left=i % 2),
+                             {"class": "announce_ok", "conn": "valid", "txid": tx, "h": 1 + i % 2, "port": 7300 + i,
+                              "event": "started", "left": i % 2, "numwant": -1, "ipfield": 0}, True)
+        drv.quiet(0.3)
+        drv.close()
+        drv = None
+        if not t.alive():
+            trace.append({"ev": "tracker_died", "stderr": t.stderr()[-400:]})
+    finally:
+        if drv:
+            drv.close()
+        t.stop()
+
+
 def classify(ev, prefix, last_state):
     sig = {"tracker": "udp", "part": "server"}
     if isinstance(ev, dict):
@@ -228,6 +270,7 @@ def run(ctx):
         try:
             per_backend[backend] = scenario(ctx, backend, cases, rnd, trace, 10 * k, ctx.quick())
             big_scrape_scenario(ctx, backend, rnd, trace, 100 + 10 * k)
+            multiworker_scenario(ctx, backend, rnd, trace, 200 + 10 * k)
         except ToolError as e:
             if backend == "uring" and "exited during start-up" in str(e):
                 per_backend[backend] = {"not_exercised": str(e)[:200]}
